@@ -1,18 +1,18 @@
 #!/bin/bash
 # usage: run_benign.sh <file.diff> [<file.diff> ...]   Applies each behaviour-preserving change to /repo, runs all claimed
 # quick checks, reverts. Any non-zero exit is a false alarm of the machinery (prints the failing lines).
-cd /verif
+cd /verif; REPO=${REPO:-/repo}
 export GOFLAGS=-mod=mod GOPROXY=off GOSUMDB=off GOTOOLCHAIN=local; unset GOWORK
 props=$(python3 -c "import json;print(' '.join(c['property_id'] for c in json.load(open('MANIFEST.json'))['checks']))")
 (cd checker && go build -o ../bin/patcheck .) || exit 2
 tmp=$(mktemp -d)
 for d in "$@"; do
   id=$(basename $d .diff)
-  if ! git -C /repo diff --quiet; then echo "repo dirty"; exit 2; fi
-  git -C /repo apply $d || { echo "$id: patch does not apply"; continue; }
-  if ! (cd /repo && go build ./... 2>$tmp/build.txt); then echo "$id: does not build"; git -C /repo checkout -- . ; git -C /repo clean -fdq -- . ; continue; fi
+  if ! git -C $REPO diff --quiet; then echo "repo dirty"; exit 2; fi
+  git -C $REPO apply $d || { echo "$id: patch does not apply"; continue; }
+  if ! (cd $REPO && go build ./... 2>$tmp/build.txt); then echo "$id: does not build"; git -C $REPO checkout -- . ; git -C $REPO clean -fdq -- . ; continue; fi
   for p in $props; do
-    ( ./bin/patcheck -prop $p -tier quick -evidence $tmp/ev_$p.json >$tmp/out_$p.txt 2>&1; echo $? >$tmp/code_$p ) &
+    ( ./bin/patcheck -prop $p -repo $REPO -tier quick -evidence $tmp/ev_$p.json >$tmp/out_$p.txt 2>&1; echo $? >$tmp/code_$p ) &
     while [ $(jobs -r | wc -l) -ge 6 ]; do sleep 0.2; done
   done
   wait
@@ -21,7 +21,7 @@ for d in "$@"; do
     code=$(cat $tmp/code_$p)
     if [ "$code" != 0 ]; then hit="$hit $p"; fi
   done
-  git -C /repo checkout -- . ; git -C /repo clean -fdq -- . >/dev/null 2>&1
+  git -C $REPO checkout -- . ; git -C $REPO clean -fdq -- . >/dev/null 2>&1
   echo "$id: alarms:${hit:- none}"
   for p in $hit; do grep -E "violated|undecided|instances <|panic|integrity" $tmp/out_$p.txt | cut -c1-${CLIP:-400} | head -${HEAD:-6} | sed "s/^/      [$p] /"; done
 done
